@@ -409,3 +409,145 @@ func callsIn(pk *packages.Package, root ast.Node, target *types.Func) []*ast.Cal
 }
 
 func exprString(e ast.Expr) string { return types.ExprString(e) }
+
+// ---------- edge facts ----------
+
+// establishedAt decides a must-fact by forward dataflow over the CFG: the fact is established on the edge out of a
+// condition block (establishes(cond, edgeIsTrue)), killed by a node (kills(node)), and holds at `target` when it holds
+// on every path from the function entry. It is independent of the statement form (if / else / switch case / loop
+// condition / && and || operands: go/cfg gives each operand its own block).
+func (fc *funcCFG) establishedAt(target ast.Node, establishes func(cond ast.Expr, trueEdge bool) bool, kills func(n ast.Node) bool) bool {
+	tb, ti := fc.blockOf(target)
+	if tb == nil {
+		return false
+	}
+	blocks := fc.g.Blocks
+	in := map[*cfg.Block]bool{}
+	for _, b := range blocks {
+		in[b] = true
+	}
+	in[blocks[0]] = false
+	preds := map[*cfg.Block][][2]any{}
+	for _, b := range blocks {
+		for i, s := range b.Succs {
+			preds[s] = append(preds[s], [2]any{b, i})
+		}
+	}
+	outOf := func(b *cfg.Block, edge int) bool {
+		v := in[b]
+		for _, n := range b.Nodes {
+			if kills != nil && kills(n) {
+				v = false
+			}
+		}
+		if len(b.Succs) == 2 && len(b.Nodes) > 0 {
+			if cond, ok := b.Nodes[len(b.Nodes)-1].(ast.Expr); ok && establishes(cond, edge == 0) {
+				v = true
+			}
+		}
+		return v
+	}
+	for changed := true; changed; {
+		changed = false
+		for _, b := range blocks {
+			if b == blocks[0] {
+				continue
+			}
+			v := true
+			if len(preds[b]) == 0 {
+				v = true // unreachable block
+			}
+			for _, p := range preds[b] {
+				if !outOf(p[0].(*cfg.Block), p[1].(int)) {
+					v = false
+					break
+				}
+			}
+			if v != in[b] {
+				in[b] = v
+				changed = true
+			}
+		}
+	}
+	v := in[tb]
+	for i := 0; i < ti && i < len(tb.Nodes); i++ {
+		if kills != nil && kills(tb.Nodes[i]) {
+			v = false
+		}
+	}
+	return v
+}
+
+// everyIterationPasses: every path in the CFG from the head of the loop round to the head again passes a node that
+// contains an event (the loop's own exit block is never entered; closures are not looked into).
+func (fc *funcCFG) everyIterationPasses(fs *ast.ForStmt, event func(n ast.Node) bool) bool {
+	var head, body *cfg.Block
+	for _, b := range fc.g.Blocks {
+		if b.Stmt == ast.Stmt(fs) {
+			switch b.Kind {
+			case cfg.KindForLoop:
+				head = b
+			case cfg.KindForBody:
+				body = b
+			}
+		}
+	}
+	if head == nil {
+		head = body
+	}
+	if head == nil {
+		return false
+	}
+	has := func(b *cfg.Block) bool {
+		for _, n := range b.Nodes {
+			found := false
+			ast.Inspect(n, func(m ast.Node) bool {
+				if found || m == nil {
+					return false
+				}
+				if _, isLit := m.(*ast.FuncLit); isLit {
+					return false
+				}
+				if event(m) {
+					found = true
+				}
+				return !found
+			})
+			if found {
+				return true
+			}
+		}
+		return false
+	}
+	if has(head) {
+		return true
+	}
+	seen := map[*cfg.Block]bool{}
+	var work []*cfg.Block
+	push := func(b *cfg.Block) {
+		if b.Kind == cfg.KindForDone && b.Stmt == ast.Stmt(fs) {
+			return
+		}
+		if !seen[b] {
+			seen[b] = true
+			work = append(work, b)
+		}
+	}
+	for _, s := range head.Succs {
+		push(s)
+	}
+	for len(work) > 0 {
+		b := work[len(work)-1]
+		work = work[:len(work)-1]
+		if b == head {
+			return false
+		}
+		if has(b) {
+			continue
+		}
+		for _, s := range b.Succs {
+			push(s)
+		}
+	}
+	return true
+}
